@@ -383,7 +383,7 @@ namespace sim
       }
     ProbePoint last_point;
     bool have_last_point = false;
-    if (rng.chance(0.08))
+    if (rng.chance(0.1))
       {
         // "reincarnation": a world is asked a last question and destroyed, a sibling that differs in one number is
         // built in its place (very likely at the same addresses) and is asked the very same question first. State
@@ -393,7 +393,14 @@ namespace sim
         WorldInfo a = infos[0], b = infos[0];
         for (int tries = 0; tries < 6; ++tries)
           {
-            WorldInfo c = analyse_world("sib.wb", perturb_one_number(infos[0].content, rng));
+            // a world with slabs or faults mostly gets a sibling whose slabs have other lengths, thicknesses or
+            // depth limits (what is remembered about a dead slab is then wrong for its successor); a world with
+            // depth surfaces one whose surfaces lie elsewhere; otherwise any one number changes
+            const double kind = rng.real();
+            const std::string sib = (!gens[0].slabs.empty() && kind < 0.6) ? perturb_sizes(infos[0].content, rng)
+                                    : (!infos[0].surface_points.empty() && kind < 0.5) ? scale_depths(infos[0].content, rng.real(0.4, 0.9))
+                                    : perturb_one_number(infos[0].content, rng);
+            WorldInfo c = analyse_world("sib.wb", sib);
             if (c.parse_ok)
               {
                 b = c;
